@@ -17,7 +17,7 @@ claim("C04", "fault_enumeration",
       "For each driver block every database key the in-order run reads plus the keys only a stale speculative attempt reads is made to fail persistently or once; under every schedule within the bound the result must be the reference's error (same value and index, exact outcome/state prefix), and a fault on a key in-order execution never reads must stay invisible. The stale-attempt-at-head window (finding F2, now fixed) is explored at attempt granularity with bound 4-5.",
       "DESIGN.md §4 C04, §5 F2", SCHED_NOTE)
 claim("C05", "exploration",
-      "stateless model checking with deadlock/livelock detection: deviation-bounded DFS at fine granularity, parks without timeout",
+      "stateless model checking with deadlock/livelock detection: deviation-bounded DFS (fine, coarse, coordinator-focus granularities; plain and sticky cost model), parks without timeout",
       "Every explored execution must return: a parked coordinator has no timeout under the controlled scheduler, so a lost wake-up is a detected deadlock and a spinning worker a detected livelock (step cap under a fair suffix). Dependency shapes (independent, chain, fan-in, late conflict, error parked behind the commit boundary, nonce mismatch at commit, fatal error, database panic at the j-th call for every j) x 1-3 workers; the returned result must also be the reference's, and an injected panic must reach the caller unchanged.",
       "DESIGN.md §4 C05", SCHED_NOTE)
 
